@@ -35,6 +35,7 @@ CHECKS.update({
  "C09": ("5.9", "Bounded liveness in GST simulations: <=F validators silent from the start (incl. the first primaries), arbitrary cut sets/instants/durations, amnesia restarts at arbitrary points (between calls, inside Broadcast, inside ProcessBlock); after faults stop every live validator must advance 3 heights within 400 T; with silence from the start on a synchronous network the deciding view is <= the number of silent validators. One protocol-level known finding (L1)."),
  "C15": ("5.15", "Every proposal of an honest-code primary is compared with an expectation recomputed from the clock reading and pool content the library obtained in that very call, under clock skew, backward/forward clock steps, unaligned clocks and increments 1, 7, 1000, 1e6, 7e6, 1e9, 999999937 ns; the primary's own block must carry the same values."),
  "C16": ("5.16", "Fault-free synchronous simulations with the maximum-block-time extension at ratios 1, 1.5, 2, 3, 8 (and off), N=1..7, transaction arrival processes (never / before the minimum / inside the extended wait / bursts) re-armed at every decided height: proposal spacing judged on simulated send instants (tolerance 4*delta), prompt proposal inside the OnNewTransaction call, no change-view/recovery request from a node whose pool is empty, no subscription without the extension."),
+ "C11": ("5.11", "Half of the evaluations are hostile cluster runs in which, at tape-chosen points, one node is given an input that an independent classifier labels inadmissible (index outside the list, past height, proposal from a non-primary, proposal/response of a lower view, response from the primary, pre-commit while anti-MEV is off, unrequested transaction, timeout of another epoch) or a payload it already holds: whole-state fingerprint (exported tables, unexported state and future-message cache through the verif accessor, simulated timer) unchanged except the sender's last-seen entry, no broadcast (a recovery message is allowed for redeliveries), no timer call. The other half are API fuzz sequences (300-600 calls, 1-4 instances, arbitrary well-typed payloads, rejecting verification callbacks, failing ProcessBlock/ProcessPreBlock, validator set / own index / watch-only flag changing at Reset). Every call, organic or injected, runs under recover() with a development-mode logger, so DPanic assertions count as panics."),
 })
 PLANNED = {}
 NOT_APPLICABLE = {
